@@ -61,7 +61,8 @@ inline void gen_data(Tape &t, uint8_t *p, size_t n) {
 }
 
 // --- lengths --------------------------------------------------------------------------------------------
-// class 0: uniform in [0, 4*B+1]; class 1: k*B+d around every block / padding boundary; class 2: random up to maxLarge
+// class 0: uniform in [0, 4*B+1]; class 1: k*B+d around every block / padding boundary; class 2: random up to maxLarge;
+// class 3 (2%): beyond 2^16
 struct Len { size_t n; int cls; };
 inline Len gen_len(Tape &t, size_t B, size_t maxLarge = 65536) {
     unsigned sel = t.u8();
@@ -72,6 +73,13 @@ inline Len gen_len(Tape &t, size_t B, size_t maxLarge = 65536) {
         if (t.chance(1, 8)) k = (size_t) t.range(6, 40);
         long v = (long) (k * B) + d[t.below(sizeof d / sizeof d[0])];
         return Len{ (size_t) (v < 0 ? 0 : v), 1 };
+    }
+    if (sel >= 251 && maxLarge >= 65536) {
+        // class 3: a single message beyond 2^16 bytes (length counters and helpers that are 16 bits wide wrap here); the entry
+        // points driven with these lengths all take 32-bit (or wider) length arguments
+        static const size_t H[] = { 65536, 65537, 65535, 65536 + 16, 65536 + 64, 65573, 131072, 131071, 131073, 196608 + 5 };
+        size_t n = t.chance(1, 2) ? H[t.below(sizeof H / sizeof H[0])] : 65536 + (size_t) t.below(140000);
+        return Len{ n, 3 };
     }
     unsigned bits = (unsigned) t.range(9, 16);
     size_t n = (size_t) t.below((1ULL << bits) + 1);
